@@ -42,7 +42,7 @@ func init() {
 		ID:           "C06",
 		Run:          Run,
 		MaxSteps:     1500000,
-		QuickRuns:    1600,
+		QuickRuns:    10000,
 		ThoroughSecs: 600,
 		Rule: "one run = one generated relay configuration (2-5 servers drawn over direct tunnel, none, socks5 with/without auth, http with/without auth, " +
 			"ss2022-128/256 single- and multi-user, TCP and UDP listeners in generic and mmsg batch modes; 1-3 proxied clients over none, socks5, http, ss2022 " +
@@ -53,8 +53,8 @@ func init() {
 			"independent encoder), random bytes of 0-70000 bytes, hostile datagrams incl. empty, maximum-size and spoofed source port 0, well-behaved requests whose " +
 			"upstream proxy (TCP man-in-the-middle, UDP) or DNS server or HTTP origin answers with mutated or fabricated replies, all under seeded fragmentation, " +
 			"close/reset/stall endings and scheduling; seeded mutation plus structure-aware generation, NOT coverage-guided; non-trivial = at least 5 hostile " +
-			"actions reached the relay and the recovery exchanges through every listener were attempted; distinct = distinct (server protocols, client protocols, " +
-			"set of entry points and operator families used) shape",
+			"actions reached the relay and the recovery exchanges through every listener were attempted; distinct = distinct (server protocols with UDP/users flags, client protocols, " +
+			"set of attacked entry points) shape",
 		Real: []string{"service (config, manager, TCP relay, UDP NAT and session relays in generic and mmsg modes)", "router, portset, bitset, domainset (inline), bart prefix sets", "dns (plain resolver over UDP and TCP, cache)",
 			"socks5, httpproxy (CONNECT and forwarding), ssnone, ss2022 (stream, packet, header, crypto, salt pool, filters, reject policies, fallback)", "direct (packet codecs, UDP clients incl. SOCKS5 UDP ASSOCIATE)", "netio, conn, zerocopy", "cred (uPSK store on the simulated disk)"},
 		Stub: []string{"kernel TCP/UDP and system resolver (simnet)", "recvmmsg/sendmmsg (simnet emulation)", "socket options", "clock (synctest)", "crypto/rand (seeded PRNG)", "TLS, GeoIP, domain-set and prefix-set files (never configured)", "OS signals"},
@@ -196,8 +196,8 @@ func (r *run) genServers() {
 			sp.MTU = util.Pick(s, []int{1500, 1280, 9000})
 			sp.NATTimeout = util.Pick(s, []time.Duration{60 * time.Second, 2 * time.Minute})
 			sp.BatchMode = util.Pick(s, []string{"", "no", "sendmmsg"})
-			sp.RelayBatchSize = util.Pick(s, []int{0, 1, 4})
-			sp.ServerRecvBatchSize = util.Pick(s, []int{0, 1, 8})
+			sp.RelayBatchSize = util.Pick(s, []int{1, 4, 16, 0})
+			sp.ServerRecvBatchSize = util.Pick(s, []int{1, 8, 0})
 		}
 		switch {
 		case svc.IsSS(v.proto):
@@ -628,15 +628,28 @@ func Run(s *simrt.Sim) {
 		clients = append(clients, c.cs.JSON())
 	}
 	dnsJ := svc.J{"name": "hdns", "addrPort": netip.AddrPortFrom(dnsIP4, dnsPort).String()}
-	dnsVia := "direct"
+	dnsVia, dnsUDP := "direct", true
+	if s.GenChance(72) {
+		// the resolver talks to its server through one of the proxied clients
+		c := r.clis[s.Choose(len(r.clis))]
+		dnsVia, dnsUDP = c.cs.Name, c.cs.UDP
+	}
 	switch s.Choose(4) {
 	case 0:
 		dnsJ["tcpClientName"] = dnsVia
 	case 1:
-		dnsJ["udpClientName"] = dnsVia
+		if dnsUDP {
+			dnsJ["udpClientName"] = dnsVia
+		} else {
+			dnsJ["tcpClientName"] = dnsVia
+		}
 	default:
-		dnsJ["tcpClientName"], dnsJ["udpClientName"] = dnsVia, dnsVia
+		dnsJ["tcpClientName"] = dnsVia
+		if dnsUDP {
+			dnsJ["udpClientName"] = dnsVia
+		}
 	}
+	s.Param("dns", fmt.Sprintf("via=%s tcp=%v udp=%v", dnsVia, dnsJ["tcpClientName"] != nil, dnsJ["udpClientName"] != nil))
 	if s.GenChance(64) {
 		dnsJ["cacheSize"] = util.Pick(s, []int{1, 2, -1})
 	}
@@ -784,8 +797,41 @@ func Run(s *simrt.Sim) {
 				kind = "listener:" + sv.sp.Proto
 			}
 		}
-		s.Fail("c06.connection-held{"+kind+"}", "%v after every peer had closed its connections the relay still holds %d TCP connection(s):%s (hostile actions: %s)",
-			letGo, len(h), w.Describe(h), r.kindList())
+		// what the relay's connection handlers are blocked in names the shape of the hang
+		var stacks, tops []string
+		for _, g := range simrt.BubbleGoroutines("shadowsocks-go/") {
+			if strings.Contains(g, "handleConn") || strings.Contains(g, "httpproxy.") || strings.Contains(g, "dns.(*Resolver)") {
+				stacks = append(stacks, g)
+			}
+			if strings.Contains(g, ".handleConn(") {
+				for _, l := range strings.Split(g, "\n") {
+					if strings.Contains(l, "shadowsocks-go/") && !strings.HasPrefix(l, "\t") && !strings.HasPrefix(l, "created by") {
+						fn := l[strings.LastIndex(l, "/")+1:]
+						if i := strings.LastIndex(fn, "("); i > 0 {
+							fn = fn[:i]
+						}
+						dup := false
+						for _, t := range tops {
+							dup = dup || t == fn
+						}
+						if !dup {
+							tops = append(tops, fn)
+						}
+						break
+					}
+				}
+			}
+		}
+		sort.Strings(tops)
+		if len(tops) > 0 {
+			kind += ",blocked-in:" + strings.Join(tops, "+")
+		}
+		st := strings.Join(stacks, "\n\n")
+		if len(st) > 12000 {
+			st = st[:12000] + "\n..."
+		}
+		s.Fail("c06.connection-held{"+kind+"}", "%v after every peer had closed its connections the relay still holds %d TCP connection(s):%s (hostile actions: %s)\nrelay goroutines still handling connections:\n%s",
+			letGo, len(h), w.Describe(h), r.kindList(), st)
 		return
 	}
 	s.Probe("c06.sockets-released")
@@ -794,7 +840,22 @@ func Run(s *simrt.Sim) {
 	}
 	sort.Strings(sprotos)
 	sort.Strings(cprotos)
-	s.ShapeAdd(strings.Join(sprotos, ",") + ">" + strings.Join(cprotos, ",") + "|" + r.kindList())
+	// the abstract case: protocols on both sides and the entry points that were attacked
+	eps := map[string]bool{}
+	for k := range r.kinds {
+		parts := strings.Split(k, ".")
+		if len(parts) > 2 {
+			parts = parts[:2]
+		}
+		eps[strings.Join(parts, ".")] = true
+	}
+	var epl []string
+	for k := range eps {
+		epl = append(epl, k)
+	}
+	sort.Strings(epl)
+	s.Param("hostile", fmt.Sprintf("%d actions: %s", r.acted, r.kindList()))
+	s.ShapeAdd(strings.Join(sprotos, ",") + ">" + strings.Join(cprotos, ",") + "|" + strings.Join(epl, ","))
 	if _, ok := e.Stop(30 * time.Minute); !ok {
 		s.Probe("c06.stop-slow") // judged by C12/C13
 	}
